@@ -53,7 +53,37 @@ def utext(u):
     return "[len]" if u in ("[len2]", "[len5]") else u
 
 
-def render(prog, nested, dotted_mods, width, incase=False):
+WIDTHS = {"int16": (16, False), "int64": (64, False), "uint16": (16, True), "uint64": (64, True), "float32": (32, None), "float128": (128, None)}
+
+
+def width_map(prog):
+    """The abstract types int / float written with a width and sign ("the type of the definition" includes them): chosen per program."""
+    vals = [prog["first"]["v"]] + [m["v"] for m in prog["mods"]]
+    neg = any(v["t"] == "q" and v["n"] < 0 for v in vals)
+    h = sum(ord(c) for c in json.dumps(prog, sort_keys=True))
+    ints = ["int16", "int64"] if neg else ["uint16", "int64", "uint64", "int16"]
+    return {"int": ints[h % len(ints)], "float": ["float32", "float128"][h % 2]}
+
+
+def render(prog, nested, dotted_mods, width, incase=False, wmap=None, asexpr=False):
+    if asexpr:
+        # every number written as a numerical expression of one atom:  x = 3 cm  ->  x = ("3 cm") cm
+        def vx(v, ty, u):
+            s = vtext(v, ty)
+            if v["t"] != "q":
+                return s
+            if u:
+                return f'("{s} {utext(u)}")'
+            du = prog["first"]["u"]        # units omitted = the units of the definition; a bare number in an expression has none
+            return f'("{s} {utext(du)}")' if du else f'("{s}")'
+        prog = json.loads(json.dumps(prog))
+        prog["first"]["_x"] = vx(prog["first"]["v"], prog["first"]["ty"], prog["first"]["u"])
+        for m in prog["mods"]:
+            m["_x"] = vx(m["v"], m["ty"] if m["typed"] else prog["first"]["ty"], m["u"])
+    if wmap:
+        prog = json.loads(json.dumps(prog))
+        for d in [prog["first"]] + prog["mods"]:
+            d["ty"] = wmap.get(d["ty"], d["ty"])
     f = prog["first"]
     units = {f["u"]} | {m["u"] for m in prog["mods"]}
     pre = []
@@ -70,7 +100,7 @@ def render(prog, nested, dotted_mods, width, incase=False):
     lines = pre + (["g"] if nested else [])
     s = f"{ind}x {f['ty']}"
     if not f["dec"]:
-        s += f" = {vtext(f['v'], f['ty'])}"
+        s += f" = {f.get('_x') or vtext(f['v'], f['ty'])}"
     if f["u"]:
         s += f" {utext(f['u'])}"
     lines.append(s)
@@ -83,7 +113,7 @@ def render(prog, nested, dotted_mods, width, incase=False):
             name, i2 = "g.x", ""
         elif nested:
             lines.append("g")
-        s = f"{i2}{name}" + (f" {m['ty']}" if m["typed"] else "") + f" = {vtext(m['v'], m['ty'] if m['typed'] else f['ty'])}"
+        s = f"{i2}{name}" + (f" {m['ty']}" if m["typed"] else "") + f" = {m.get('_x') or vtext(m['v'], m['ty'] if m['typed'] else f['ty'])}"
         if m["u"]:
             s += f" {utext(m['u'])}"
         lines.append(s)
@@ -98,7 +128,7 @@ def parse_chained(text):
     the modifications by a second one built on the returned environment."""
     lines = text.rstrip("\n").split("\n")
     # split after the definition line (first line that declares a type) and an optional !constant
-    idx = next(i for i, l in enumerate(lines) if l.lstrip().startswith(("x int", "x float", "x bool", "x str")))
+    idx = next(i for i, l in enumerate(lines) if l.lstrip().startswith(("x int", "x uint", "x float", "x bool", "x str")))
     if idx + 1 < len(lines) and lines[idx + 1].lstrip().startswith("!constant"):
         idx += 1
     first, rest = "\n".join(lines[:idx + 1]) + "\n", "\n".join(lines[idx + 1:]) + "\n"
@@ -124,7 +154,8 @@ def observe(text, nested, chained=False):
     if tv is None or not hasattr(tv, "value"):
         return {"ok": True, "keys": [key], "bad": "the returned environment holds a parameter without a value object"}
     val = tv.value
-    return {"ok": True, "ty": CLS.get(type(tv).__name__), "unit": tv.unit or "", "val": val}
+    return {"ok": True, "ty": CLS.get(type(tv).__name__), "unit": tv.unit or "", "val": val,
+            "prec": getattr(tv, "precision", None), "uns": getattr(tv, "unsigned", None)}
 
 
 def val_matches(obs, v):
@@ -154,16 +185,66 @@ def agrees(obs, exp, full):
     return val_matches(obs["val"], exp["v"])
 
 
+OTHER_UNIT = {"m": "cm", "cm": "m", "km": "m", "mm": "cm", "s": "ms", "ms": "s"}
+
+
+def observe_function(prog, rec):
+    """The program on x, then a second node y (defined in x's unit) is re-defined with the value a user function supplies:
+    the function hands back x's current value object, written in another unit of the same dimension.  y must equal x's final
+    value in its own definition unit, and x must be what the program alone makes it (a pure function changes nothing)."""
+    from scinumtools.dip import DIP
+    from scinumtools.dip.settings import Format
+    D.speedup()
+    u0 = prog["first"]["u"]
+    s = render(prog, False, False, 2) + f"y float = 1 {u0}\ny float = (same_as_x) {OTHER_UNIT[u0]}\nz float = {{?x}}\n"
+    D._COUNT[0] += 1
+    try:
+        with DIP(name=f"verif{os.getpid()}f{D._COUNT[0]}") as p:
+            p.add_function("same_as_x", lambda data: data["x"])
+            p.add_string(s)
+            data = p.parse().data(Format.TYPE)
+    except Exception as e:
+        return s, {"ok": False, "err": type(e).__name__ + ": " + str(e)[:120]}
+    out = {"ok": True}
+    for k in ("x", "y", "z"):
+        tv = data.get(k)
+        out[k] = None if tv is None or not hasattr(tv, "value") else {"ok": True, "ty": CLS.get(type(tv).__name__), "unit": tv.unit or "", "val": tv.value}
+    return s, out
+
+
 def replay_record(rec):
     prog = rec["prog"]
-    variants = [(False, False, 2, False, False), (True, True, 2, False, False), (True, False, 3, False, False), (False, False, 2, True, False),
-                (False, False, 2, False, True)]
+    variants = [(False, False, 2, False, False, False), (True, True, 2, False, False, False), (True, False, 3, False, False, False),
+                (False, False, 2, True, False, False), (False, False, 2, False, True, False), (False, False, 2, False, False, True),
+                (False, False, 2, False, False, "expr")]
     first = None
-    for nested, dotted, width, incase, chained in variants:
+    for nested, dotted, width, incase, chained, widths in variants:
+        if widths == "expr":
+            if prog["first"]["ty"] not in ("int", "float") or rec["u"] or not rec["ideal"]["ok"]:
+                continue
+            if prog["first"]["u"] and any(m["typed"] and not m["u"] and m["v"]["t"] == "q" for m in prog["mods"]):
+                continue      # a typed line without units that holds an expression: which unit the result is asked in is not documented
+            s = render(prog, False, False, 2, asexpr=True)
+            obs = observe(s, False, False)
+            if not agrees(obs, rec["ideal"], True):
+                return ("violation", {"text": s, "observed": {k: (str(v) if k == "val" else v) for k, v in obs.items()}, "expected": rec["ideal"], "known": False})
+            continue
         if chained and (not prog["mods"] or prog["first"]["dec"]):
             continue      # a declaration alone is no complete text; nothing to chain without modifications
-        s = render(prog, nested, dotted, width, incase)
+        wmap = None
+        if widths:
+            if prog["first"]["ty"] not in ("int", "float"):
+                continue
+            wmap = width_map(prog)
+        s = render(prog, nested, dotted, width, incase, wmap)
         obs = observe(s, nested, chained)
+        if wmap and rec["ideal"]["ok"] and obs.get("ok") and not obs.get("bad"):
+            want = WIDTHS[wmap[prog["first"]["ty"]]]
+            if obs.get("prec") != want[0] or (want[1] is not None and obs.get("uns") != want[1]):
+                if rec["u"]:
+                    return ("unspecified", None)
+                return ("violation", {"text": s, "observed": {"precision": obs.get("prec"), "unsigned": obs.get("uns")},
+                                      "expected": {"precision": want[0], "unsigned": want[1]}, "known": False})
         if agrees(obs, rec["ideal"], True):
             if not agrees(obs, rec["mach"], False):
                 return ("drift", {"text": s, "machine": rec["mach"], "observed": str(obs)})
@@ -172,6 +253,21 @@ def replay_record(rec):
             return ("unspecified", None)
         return ("violation", {"text": s, "observed": {k: (str(v) if k == "val" else v) for k, v in obs.items()}, "expected": rec["ideal"],
                               "known": agrees(obs, rec["mach"], False) and rec["dev"] != "none"})
+    f, idl = prog["first"], rec["ideal"]
+    if (not rec["u"] and idl["ok"] and f["ty"] == "float" and f["u"] in OTHER_UNIT and idl["v"]["t"] == "q" and not f["const"]
+            and all(m["u"] in ("", f["u"]) or m["u"] in OTHER_UNIT for m in prog["mods"])):
+        s, obs = observe_function(prog, rec)
+        bad = None
+        if not obs["ok"]:
+            bad = "the text is rejected"
+        else:
+            for k in ("x", "y", "z"):
+                if obs[k] is None or not agrees(obs[k], idl, True):
+                    bad = f"{k} differs from x's last assignment in the unit of the definition"
+                    break
+        if bad:
+            return ("violation", {"text": s, "observed": {k: (str(v)) for k, v in obs.items()}, "expected": {"x = y = z": idl},
+                                  "known": False, "clause2": "a value supplied by a pure user function: " + bad})
     return ("unspecified" if rec["u"] else "ok", None)
 
 
